@@ -8,8 +8,9 @@ from . import win as W
 
 
 def size_candidates(dur, rate):
-    """admissible floor(dur*rate): near-integer rule and IEEE evaluation."""
-    return {W.block_size(dur, rate), W.block_size_ieee(dur, rate)}
+    """floor(dur*rate) as Python evaluates it: int() of the double product.  (The near-integer reading used for window
+    COUNTS in C06 is deliberately not admitted here: 0.29 s at 100 Hz is 28 samples, as int(0.29*100) says.)"""
+    return {W.block_size_ieee(dur, rate)}
 
 
 def visible_candidates(total, rate, max_read):
